@@ -12,6 +12,12 @@ use crate::workload::{self, CfgRule, Part, Std, Tier};
 
 /// Re-evaluate the property a violation belongs to on a modified input (same config / extra data).
 pub fn violated(v: &Violation, new_input: &str) -> Option<bool> {
+    if v.oracle == "range-literal-stream" {
+        return crate::p_range::range_literal_violated(new_input, v.cfg?);
+    }
+    if v.oracle == "front-end-hygiene" {
+        return crate::p_cli::hygiene_violated(new_input);
+    }
     match v.property.as_str() {
         "C01" | "C03" | "C04" | "C06" | "C08" | "C09" | "C10" | "C11" => {
             treeprops::violated(&v.property, new_input, v.cfg?)
@@ -56,6 +62,7 @@ pub fn tree_parts(prop: &str, std: &Std) -> Vec<Part> {
             parts.push(Part::new(pools::comment_pool(sb.clone()), 6000, 120_000, sweep2.clone()));
             parts.push(Part::new(pools::ws_pool(sb.clone()), 4000, 80_000, sweep2.clone()));
             parts.push(Part::new(pools::paren_pool(sb.clone()), 3000, 33_196, sweep2.clone()));
+            parts.push(Part::new(pools::pattern_paren_pool(sb.clone()), 2000, usize::MAX, sweep2.clone()));
             parts.push(Part::new(pools::splice_pool(sb.clone(), std.frags.clone()), 3000, 72_678, sweep2.clone()));
             parts.push(Part::new(pools::eol_pool(sb.clone()), 1500, 18_391, sweep2.clone()));
             parts.push(Part::new(pools::eolblank_pool(sb.clone()), 1500, 31_770, sweep2.clone()));
@@ -78,6 +85,8 @@ pub fn tree_parts(prop: &str, std: &Std) -> Vec<Part> {
             parts.push(Part::new(pools::ws_pool(sb.clone()), 3000, 80_000, sweep2.clone()));
             parts.push(Part::new(pools::splice_pool(sb.clone(), std.frags.clone()), 3000, 72_678, sweep2.clone()));
             parts.push(Part::new(pools::comment_pool(sb.clone()), 3000, 60_000, sweep2.clone()));
+            parts.push(Part::new(pools::uni_pool(sb.clone()), 2000, 21_240, sweep2.clone()));
+            parts.push(Part::new(pools::blank_pool(sb.clone()), 4000, usize::MAX, sweep2.clone()));
             gens(&mut parts, 1200, 12_000, &sweep2);
         }
         "C09" => {
@@ -124,9 +133,39 @@ pub fn run_tree(prop: &str, tier: Tier) -> (RunMeta, Acc) {
         "the normal form / stream abstractions in harness/src/{nf,streams}.rs erase exactly what DESIGN.md §6 and §8 call layout".into(),
         "closed pools: every registered input is a deterministic function of committed files and VERIF_SEED".into(),
     ];
+    if prop == "C10" {
+        // literals under the other formatting entry point: range formatting of every leaf's range, spliced back
+        let cfgs = [Cfg::new(80, 2, false), Cfg::new(0, 4, false), Cfg::new(30, 3, false)];
+        let sb = std.small_bases.clone();
+        let parts = vec![
+            Part::new(std.base_list(), usize::MAX, usize::MAX, CfgRule::Fixed(vec![])),
+            Part::new(workload_list("corpus(range-shapes)", crate::corpus::range_shapes()), usize::MAX, usize::MAX, CfgRule::Fixed(vec![])),
+            Part::new(pools::eolblank_pool(sb.clone()), 3000, usize::MAX, CfgRule::Fixed(vec![])),
+            Part::new(pools::ws_pool(sb.clone()), 3000, 60_000, CfgRule::Fixed(vec![])),
+            Part::new(crate::p_off::off_pool(sb.clone()), 3000, 40_000, CfgRule::Fixed(vec![])),
+        ];
+        let (a2, pm) = workload::run_parts(&parts, tier, meta.seed ^ 0x10, |_, case, _, acc| {
+            if case.text.len() <= 20_000 {
+                crate::p_range::range_literal_case(case, &cfgs, acc)
+            }
+        });
+        for mut m in pm {
+            m["pool"] = json!(format!("range-literals: {}", m["pool"].as_str().unwrap_or("")));
+            meta.pools.push(m);
+        }
+        acc.merge(a2);
+    }
+    if prop == "C11" {
+        // the same rule for what the command line front-end writes and prints when several documents go through one process
+        crate::p_cli::run_hygiene(tier, meta.seed, &mut acc);
+    }
     // always-on: reproducers of fixed findings must hold
     crate::special::run_fixed_repros(prop, &mut acc);
     (meta, acc)
+}
+
+fn workload_list(name: &str, cases: Vec<crate::engine::Case>) -> pools::ListPool {
+    pools::ListPool { name: name.into(), cases }
 }
 
 pub fn check(prop: &str, tier: Tier) -> i32 {
@@ -208,7 +247,14 @@ pub fn triage(prop: &str, tier: Tier) {
     let mut seen = std::collections::HashSet::new();
     let mut known = 0u64;
     use rayon::prelude::*;
-    let vs: Vec<&Violation> = acc.violations.iter().filter(|v| seen.insert(util::hash64_parts(&[&v.input, &v.oracle]))).collect();
+    // every violating execution is classified on its own — (input, oracle, request, configuration) — exactly as a check does
+    // with whatever subset of the configurations its seed selects: an input that a position key explains at one width may need
+    // to be listed for another
+    let vs: Vec<&Violation> = acc
+        .violations
+        .iter()
+        .filter(|v| seen.insert(util::hash64_parts(&[&v.input, &v.oracle, &v.extra.to_string(), &v.cfg.map(|c| c.to_string()).unwrap_or_default()])))
+        .collect();
     eprintln!("triage: {} evaluations, {} violations ({} distinct inputs)", acc.evaluations, acc.violations.len(), vs.len());
     let results: Vec<(usize, Option<String>, Vec<String>, Vec<String>)> = vs
         .par_iter()
@@ -253,7 +299,7 @@ pub fn triage(prop: &str, tier: Tier) {
             }
             continue;
         }
-        leftovers.push(json!({"sha": util::sha_hex(&v.input), "input": v.input, "cfg": v.cfg.map(|c| c.json()), "detail": util::clip(&v.detail, 300), "origin": v.origin, "oracle": v.oracle, "extra": v.extra, "property": v.property}));
+        leftovers.push(json!({"sha": util::sha_hex(&v.input), "input": v.input, "cfg": v.cfg.map(|c| c.json()), "detail": util::clip(&v.detail, 300), "origin": v.origin, "oracle": v.oracle, "extra": v.extra, "property": v.property, "_i": i}));
     }
     // second pass: inputs with several comments at culprit positions (each sufficient on its own) are explained by the
     // key set as a whole — the same counterfactual the comment_key classifier applies at check time
@@ -263,7 +309,7 @@ pub fn triage(prop: &str, tier: Tier) {
     let explained: Vec<bool> = leftovers
         .par_iter()
         .map(|l| {
-            let Some(v) = vs.iter().find(|v| util::sha_hex(&v.input) == l["sha"].as_str().unwrap_or("") && v.oracle == l["oracle"].as_str().unwrap_or("")) else { return false };
+            let Some(v) = l["_i"].as_u64().and_then(|i| vs.get(i as usize)) else { return false };
             match crate::classifiers::remove_comments_with_keys(&v.input, &key_refs, false) {
                 Some(x) if x != v.input && crate::classifiers::recheck(v, &x) == Some(false) => {
                     match crate::classifiers::remove_comments_with_keys(&v.input, &key_refs, true) {
@@ -279,6 +325,12 @@ pub fn triage(prop: &str, tier: Tier) {
     let mut it = explained.iter();
     leftovers.retain(|_| !*it.next().unwrap());
     eprintln!("triage: {} of {} leftovers explained by removing all comments at known positions", before - leftovers.len(), before);
+    // one entry per (input, oracle, kind of failure) is enough for the list
+    let mut seen_l = std::collections::HashSet::new();
+    leftovers.retain(|l| {
+        let first = l["detail"].as_str().unwrap_or("").split_whitespace().next().unwrap_or("").to_string();
+        seen_l.insert((l["sha"].as_str().unwrap_or("").to_string(), l["oracle"].as_str().unwrap_or("").to_string(), first))
+    });
     let out = json!({
         "property": prop,
         "already_known": known,
